@@ -307,7 +307,7 @@ func TestC15(t *testing.T) {
 	rig.Main(t, "C15", "rapid emitter histories with listing generation on (instructions, labels, label references, comments up to 300 printable characters, data blocks of "+
 		"0,1,2,15,16,17,31,32,33,47,48,49,64,65,80 bytes, optional base set first; a quarter of the data blocks are handed over as a window of the target buffer itself that overlaps the destination), buffer exactly as large as the program in a quarter of the cases, listed before and after Finalize: "+
 		"the hex listing's 0x.., tokens left of any // must concatenate to Bytes(); the text listing is walked in lockstep with the model's line records (address and bytes of every "+
-		"instruction and db line, labels/comments/base directives where issued); both writers return nil and leave the program unchanged.  Non-trivial = the history has a data block longer "+
+		"instruction and db line, labels/comments/base directives where issued); both writers return nil and leave the program unchanged; a sixth of the clone-free histories run in a buffer that is 1-40 bytes too small, a third produce both listings also in the middle of the program, and programs with comments of 0.5-9 KiB are listed.  Non-trivial = the history has a data block longer "+
 		"than 16 bytes or a label reference; distinct = hash(case).",
 		func(r *rig.Run) {
 			ev := r.Ev
